@@ -14,6 +14,7 @@ type Scenario struct {
 	Knob    int    `json:"knob,omitempty"` // DefaultBlockSize for this run (0: compiled-in)
 
 	Theme  string  `json:"theme,omitempty"` // informational: feature class the inputs were drawn from
+	Light  bool    `json:"light,omitempty"` // C11: no full dump at the end of each pipeline (the tree fingerprint is still compared)
 	Inputs []Input `json:"inputs,omitempty"`
 	Tasks  []Task  `json:"tasks,omitempty"`
 
@@ -82,6 +83,11 @@ type Pipeline struct {
 	Input        int  `json:"input"`
 	ShareVersion bool `json:"share_version,omitempty"`
 	Ops          []Op `json:"ops"`
+	// Keep: what the caller holds on to when the pipeline is over. "" = the
+	// root; "sub" = only one statement of the root (the root itself and the
+	// rest of the tree become garbage); "subgc" = the same, and a garbage
+	// collection runs right away.
+	Keep string `json:"keep,omitempty"`
 }
 
 // Op kinds: print, dump, dumpT, dumpP, dumpTP, traverse, resolve, gc
